@@ -21,3 +21,8 @@ Definition c_max_2 := Z.max.
 Definition flit (bits num den : Z) : Z := (2 * num) / den.
 Record hpst := mkHP { f_hpx : Z; f_hpy : Z }.
 Definition c_orientationIndex_6 (x1 y1 x2 y2 x y : Z) : Z := Z.sgn ((x2 - x1) * (y - y1) - (y2 - y1) * (x - x1)).
+(* HotPixel::intersects(const CoordinateXY& p): the point as a pair in half units; HotPixel::scale(val) = val * scaleFactor is
+   the identity here (the coordinates are already scaled; HotPixel::intersects(p0, p1) takes the same short-cut for scaleFactor 1) *)
+Definition f_x (p : Z * Z) : Z := fst p.
+Definition f_y (p : Z * Z) : Z := snd p.
+Definition m_scale_1 (st : hpst) (v : Z) : Z := v.
